@@ -5,9 +5,10 @@ the prescribed Value for its serde kind (per-kind mapping below, written from th
 NOT decided: coincidence with serde_json's image (another crate's behaviour)."""
 import re
 
+import evalsum
 import hazards
 from framework import Inconclusive
-from norm import norm, norm_cond, show
+from norm import norm, norm_cond, short_callee, show
 from tss import Interp, State
 
 LEVEL = "other"
@@ -148,13 +149,22 @@ def run(res, f, tier):
         elif m == "serialize_tuple_variant":
             ok = fresh_vec_ok("Ok(SerializeTupleVariantValue(variant, %s))", outs)
         elif m == "serialize_bytes":
+            # Ok(Vec(<forward iteration over the bytes>.map(<byte -> Int, widened losslessly>).collect()))
             r = outs[0][1] if len(outs) == 1 else ""
-            mm = re.fullmatch(r"Ok\(Vec\(Map::collect\(Iter::map\(\[u8\]::iter\(value\), closure\((.*)\)\)\)\)\)", r)
+            mm = re.fullmatch(r"Ok\(Vec\(\w+::collect\(\w+::map\((?P<src>.*), (?:closure\((?P<clo>[^()]*(?:\{[^}]*\})?[^()]*)\)|fn (?P<fn>.+))\)\)\)\)", r)
             ok = False
-            if mm:
+            if mm and mm.group("src") in ("[u8]::iter(value)", "Iter::copied([u8]::iter(value))", "Iter::cloned([u8]::iter(value))", "into_iter(value)"):
                 import c17
-                cs = c17.closure_summary(f, mm.group(1))
-                ok = cs in ([((), "Int(i128::from<u8>(e))")], [((), "Int(cast:IntToInt:u8->i128(e))")])
+                WIDEN = re.compile(r"^Int\((i128::from<u8>|i128::from<impl Into[^()]*>|Into::into|cast:IntToInt:u8->i128)\((e|value|a0)\)\)$")
+                if mm.group("clo"):
+                    cs = c17.closure_summary(f, mm.group("clo"))
+                else:
+                    fp = [d_ for d_, b_ in f.bodies.items() if short_callee(d_) == mm.group("fn") or d_ == mm.group("fn") or d_.endswith("::" + mm.group("fn").split("::")[-1])]
+                    cs = []
+                    if len(fp) == 1:
+                        o2, _ = evalsum.summarize_fn(f, fp[0])
+                        cs = [(c_, r_) for c_, r_, _, _ in o2]
+                ok = len(cs) == 1 and not cs[0][0] and bool(WIDEN.match(cs[0][1]))
         else:
             ok = False
         ob(ok, key, "ValueSerializer::%s does not build the prescribed Value: %s" % (m, outs), {"fn": d})
